@@ -104,7 +104,12 @@ func check(id, tier string) (code int) {
 
 	gooses := []string{"linux"}
 	if tier == "thorough" {
-		gooses = append(gooses, rule.ThoroughGOOS...)
+		extra := rule.ThoroughGOOS
+		if extra == nil {
+			// every rule is re-decided on the other release platforms' builds (build-tagged files differ)
+			extra = []string{"darwin", "freebsd", "openbsd", "windows"}
+		}
+		gooses = append(gooses, extra...)
 	}
 	builds := []any{}
 	for _, goos := range gooses {
